@@ -1237,17 +1237,7 @@ func (t *typeParser) parse() typeParserResult {
 	ast, ok := t.parseClassNode()
 	if !ok || !ast.wellFormed() {
 		// treat this is a custom type
-		return typeParserResult{
-			isComposite: false,
-			types: []TypeInfo{
-				NativeType{
-					typ:    TypeCustom,
-					custom: t.input,
-				},
-			},
-			reversed:    []bool{false},
-			collections: nil,
-		}
+		return t.customType()
 	}
 
 	// interpret the AST
@@ -1278,6 +1268,13 @@ func (t *typeParser) parse() typeParserResult {
 				}
 				collections[name] = param.class.asTypeInfo()
 			}
+		}
+
+		if count == 0 {
+			// a composite made of nothing but a collections parameter has no
+			// component the callers could use: treat it as a custom type, so
+			// that the result always holds at least one type
+			return t.customType()
 		}
 
 		types := make([]TypeInfo, count)
@@ -1312,6 +1309,22 @@ func (t *typeParser) parse() typeParserResult {
 			types:       []TypeInfo{typeInfo},
 			reversed:    []bool{reversed},
 		}
+	}
+}
+
+// customType is the result for a definition that is not understood: the
+// whole input as one custom type.
+func (t *typeParser) customType() typeParserResult {
+	return typeParserResult{
+		isComposite: false,
+		types: []TypeInfo{
+			NativeType{
+				typ:    TypeCustom,
+				custom: t.input,
+			},
+		},
+		reversed:    []bool{false},
+		collections: nil,
 	}
 }
 
